@@ -474,7 +474,7 @@ func init() {
 			r.Rule = "(a) sequential: a stored request in state absent / pending / done (plus the late failures user unknown, user lookup error, signing-key fault, unusable algorithm, unknown application) is called back with the id in query, body, both with different values, duplicated, empty, blank, overlong, case-changed, padded, escaped twice or as a percent-sequence alias of the other session's id, by GET/POST/HEAD/PUT; a second completed session of another user lives in the same world. Online monitor on the request's tagged storage-log slice: Success => 'found and Done()=true' was observed for a supplied id; non-Success => no NameID, attribute value, signature or user canary anywhere in the fully decoded reply. (b) concurrent histories: 8 sessions created through the real SSO endpoint, 6 clients racing completions and callbacks with delays injected in storage calls; each history is checked with porcupine against a per-session register model (a callback may succeed only after completion). Distinct = (state, late failure, placement, method, binding) resp. histories."
 			r.Require("success_replies", 30)
 			r.Require("non_success_replies", 200)
-			r.Require("distinct_non_success_shapes", 3)
+			r.Require("distinct_non_success_shapes", 2)
 			r.Require("histories_linearizable", int64(c.Pick(30, 400)))
 			r.Require("history_success_callbacks", 100)
 			r.Require("max_in_flight_callbacks", 2)
